@@ -204,23 +204,26 @@ def rule_b(ctx, cr):
     # inductive form: assume cont != Interrupt on entry, require it on exit
     allv = {v["name"] for v in cr.adts["mach::runtime::State"]["variants"]}
     vm = typestate.VariantMay(it, "mach::runtime::State", "(*_1).state", ["(*_1).cont"],
-                              assume={"(*_1).cont": allv - {"Interrupt"}})
+                              assume={"(*_1).cont": allv - {"Interrupt", "RuntimeError"}})
     saved = set()
     for b in it.return_blocks():
         saved |= set(vm.at(b, "(*_1).cont") or ())
     left = set()
     for b in it.return_blocks():
         left |= set(vm.at(b) or ())
-    ctx.check(left == {"Interrupt"}, "C13.b", "interrupt/always-requests-break", it.span,
+    ctx.check(left <= {"Interrupt", "RuntimeError"} and "Interrupt" in left, "C13.b",
+              "interrupt/always-requests-break", it.span,
               "interrupt() returns with state == Interrupt whatever it found",
               "interrupt() can return with state in %s: for that state the break is swallowed - "
               "no BREAK is reported, nothing is saved for CONT and the program runs on (e.g. an "
               "interrupt during a LIST statement of a running program)" % sorted(left - {"Interrupt"}))
-    ctx.check("Interrupt" not in saved, "C13.b", "interrupt/never-saves-interrupt", it.span,
+    ctx.check(not (saved & {"Interrupt", "RuntimeError"}), "C13.b",
+              "interrupt/never-saves-interrupt", it.span,
               "after interrupt() the saved continuation is one of %s" % sorted(saved),
-              "interrupt() can save State::Interrupt as the continuation (a second interrupt() "
-              "before execute() has reported the first): the running state is overwritten, CONT "
-              "prints BREAK again and the program cannot be continued")
+              "interrupt() can save a pending break (State::Interrupt / RuntimeError) as the "
+              "continuation - a second interrupt() before execute() has reported the first: the "
+              "running state is overwritten, CONT prints BREAK again and the program cannot be "
+              "continued")
     c = cr.need_fn("mach::runtime::Runtime::cont")
     ctx.touch(c)
     # the trace cursor (last line whose [n] label was printed) belongs to the interrupted run too:
